@@ -245,13 +245,14 @@ def c01(tier):
 def c03(tier):
     def own(d):
         return d["ev"] == "bread" and d["kind"] in ("over_cap", "over_budget", "spurious_empty", "read_panic", "hang")
-    return generic("C03", tier, profiles=["seq", "peek"], own=own, n_quick=600, n_thorough=6000, real_n=8)
+    return generic("C03", tier, profiles=["seq", "peek", "cap"], own=own, n_quick=750, n_thorough=6000, real_n=8)
 
 
 def c15(tier):
     def own(d):
         return d["ev"] == "counts"
-    return generic("C15", tier, profiles=["seq", "peek"], own=own, n_quick=600, n_thorough=6000)
+    return generic("C15", tier, profiles=["seq", "peek", "restart"], own=own, n_quick=750, n_thorough=6000,
+                   cfgs=[c for c in G.CFGS_ALL if c["mode"] == "strict"] + [G.CFGS_ALL[2]])
 
 
 def c02(tier):
